@@ -208,6 +208,9 @@ def run(ctx):
             ctx.count("opts:%s" % json.dumps(opts, sort_keys=True))
             if n_rel and text and (SPECIAL & set(text)):
                 ctx.nontrivial([w.ops, opts])
+            if g.chance(0.15) and b.mutate_in_place([d]):
+                # the document changes in place between two drawings
+                ctx.count("changed-after-first-export")
         ctx.sample({"n_ops": len(w.ops)})
         worlds.append(w)
         if len(worlds) >= 50:
